@@ -107,6 +107,19 @@ package phase1
 //@   ensures exists k int :: 0 <= k && k < len(nodes) && result == nodes[k]
 //@   modifies nothing
 
+// execGreedy (C01): the scan that collects the edges to reverse only reads the out-lists - no adjacency list changes
+// while it is being ranged over, and the collected list lives apart from every out-list. (Reversing inside the scan
+// removes the edge under the cursor from the list and skips its successor, which can leave a cycle and ends in the
+// "graph is still cyclic" panic: the defect repaired in 32354fb; these invariants are the obligations that guard the
+// repair.)
+//@ func execGreedy
+//@   loop range(g.Nodes)#4 index a
+//@     invariant[scanapart|C01] forall m *Node :: arr(pointRight) == 0 || arr(m.Out) != arr(pointRight)
+//@     invariant[scanframe|C01] forall m *Node, k int :: m.Out == loopold(m.Out) && m.Out[k] == loopold(m.Out[k])
+//@   loop range(n.Out)#1 index b
+//@     invariant[scanapart|C01] forall m *Node :: arr(pointRight) == 0 || arr(m.Out) != arr(pointRight)
+//@     invariant[scanframe|C01] forall m *Node, k int :: m.Out == loopold(m.Out) && m.Out[k] == loopold(m.Out[k])
+
 // execDepthFirst (C01, C14): the processor starts with empty sets; outside visit no node is active; every edge
 // collected for reversal is a non-nil edge, and the list lives apart from the adjacency lists that Reverse rewrites.
 //@ func execDepthFirst
